@@ -86,6 +86,7 @@ fn alphabet(n: usize) -> Vec<Dev> {
         s.variants[0].kind = Kind::Tuple(vec![FieldTy::LStr]);
         true
     }));
+    d.extend(crate::devs::rich_generic_devs(true));
     d
 }
 
